@@ -8,6 +8,8 @@ import CpModel.Negotiate
     els A|P <opt text>                          header_elements('Accept-…' | other, value)
     gz <empty> <cached> <ae?> <ct> <mimes> <vary?> <cl?>
     cs <ct?> <add> <textonly> <stream> <forced?> <ac?> <name=0|1,…>
+    both <ct?> <add> <textonly> <forced?> <ac?> <name=0|1,…> <nchunks> <cached> <ae?> <mimes> <vary?>
+    q <text>                                    float(text) as the model reads it
     frame <level> <mtime> <payload hex> <chunks hex,…> <member hex>
     crc <init> <hex>
 -/
@@ -99,8 +101,42 @@ def step (line : String) : String :=
       let g := match Gzip.gunzip z mem with
         | some d => if d = body then "ok" else "other"
         | none => "bad"
-      s!"H={hex hdr} T={hex trl} EQ={if m = mem then 1 else 0} GUNZIP={g}"
+      let gf := match Gzip.gunzipFull z mem with
+        | some d => if d = body then "ok" else "other"
+        | none => "bad"
+      let flg := (mem.drop 3).headD 255
+      let opt := match Gzip.skipOptional flg (mem.drop 10) with
+        | some r => if r = mem.drop 10 then "none" else "some"
+        | none => "bad"
+      s!"H={hex hdr} T={hex trl} EQ={if m = mem then 1 else 0} GUNZIP={g} FULL={gf} FLG={flg.toNat} OPT={opt}"
     | _, _, _, _, _ => "bad-op"
+  | ["both", ct, add, textonly, forced, ac, tbl, n, cached, ae, mimes, vary] =>
+    match optText? ct, bool? add, bool? textonly, optText? forced, optText? ac, list? canEntry? tbl,
+          n.toNat?, bool? cached, optText? ae, list? untext? mimes, optText? vary with
+    | some ct, some add, some textonly, some forced, some ac, some tbl, some n, some cached, some ae,
+      some mimes, some vary =>
+      -- the codec of the case: a charset encodes every chunk or none (the table), one token byte per chunk
+      let k : Codec := { enc := fun name _ => if canOf tbl name then some [0] else none, dec := fun _ _ => none }
+      let z : Gzip.Z := { deflate := fun _ _ => [], inflate := fun _ => none }
+      match encodeThenGzip k z ⟨ct, add, textonly, false, forced, ac⟩ ae cached mimes 0 0 ⟨vary, none, none⟩
+              (List.replicate n ['x']) with
+      | some o =>
+        s!"found {text o.charset} {text o.contentType} D={showDecision o.decision} V={showOptText o.headers.vary} CE={showOptText o.headers.contentEncoding}"
+      | none =>
+        -- an error raised by the encoder becomes an error page (text/html;charset=utf-8) which runs through the
+        -- before_finalize hooks, tools.gzip included
+        let e := gzipDecision ⟨false, cached, ae, "text/html;charset=utf-8".toList, mimes⟩
+        match encodeCall (canOf tbl) ⟨ct, add, textonly, false, forced, ac⟩ with
+        | .noFind =>
+          -- the body reaches tools.gzip as the handler returned it (non-empty here: the harness asks only then)
+          s!"noFind D={showDecision (gzipDecision ⟨false, cached, ae, ct.getD [], mimes⟩)}"
+        | .found _ _ => "unencodable"
+        | .fail r => s!"fail {showCs r} E={showDecision e}"
+    | _, _, _, _, _, _, _, _, _, _, _ => "bad-op"
+  | ["q", t] =>
+    match untext? t with
+    | some t => showQ (parseQ t)
+    | none => "bad-op"
   | ["crc", init, data] =>
     match init.toNat?, unhex? data with
     | some init, some data => toString (Gzip.crc32 data (UInt32.ofNat init)).toNat
